@@ -1503,8 +1503,10 @@ class FileBuilder:
                 made_dirs.append(parent)
                 logger.info('Created directory {:s}'.format(parent))
         except Exception:
-            # Don't leave behind directories that nothing keeps track of
-            FileBuilder._remove_empty_dirs(made_dirs)
+            # Don't leave behind directories that nothing keeps track of. We
+            # remove them at the end of the build, like the directories of
+            # files we failed to build. (Another thread might be using them.)
+            self._build_dirs.error_making_dirs(made_dirs)
             raise
         return dirs_to_make
 
